@@ -95,13 +95,14 @@ int main(int argc, char** argv) {
             auto axisOf = [&](const mj::Value& a) { const double sc = std::pow(5.0, a["e"].dbl()); return UnitVec3(Vec3(a["n"][0].dbl() / sc, a["n"][1].dbl() / sc, a["n"][2].dbl() / sc)); };
             for (auto& k : c["cons"].arr()) {
                 const string t = k["type"].str(); MobilizedBody& b1 = mb[(int)k["b1"].num()];
+                const bool rt = k.has("rt") && k["rt"].num() != 0;      // built with decoy defaults; the real parameters are set in the State
                 if (k.has("weld")) {     // six spec entries (three orientation, three position equations), one library Weld
                     if (k["part"].num() == 0) { cons.push_back(Constraint::Weld(b1, Transform(frameRot(k["RB"]), vec(k["pB"])), mb[(int)k["b2"].num()], Transform(frameRot(k["RF"]), vec(k["pF"])))); cons.back().setDisabledByDefault(true); }
                     else cons.push_back(Constraint());
                     continue;
                 }
                 if (t == "ballc") {      // one library Ball for the three spec entries
-                    if (k["part"].num() == 0) { cons.push_back(Constraint::Ball(b1, vec(k["st"]), mb[(int)k["b2"].num()], vec(k["st2"]))); cons.back().setDisabledByDefault(true); }
+                    if (k["part"].num() == 0) { cons.push_back(Constraint::Ball(b1, vec(k["st"]) + (rt ? Vec3(1, -1, 2) : Vec3(0)), mb[(int)k["b2"].num()], vec(k["st2"]) + (rt ? Vec3(-2, 1, 1) : Vec3(0)))); cons.back().setDisabledByDefault(true); }
                     else cons.push_back(Constraint());
                     continue;
                 }
@@ -112,11 +113,11 @@ int main(int argc, char** argv) {
                 }
                 if (t == "pip") cons.push_back(Constraint::PointInPlane(b1, axisOf(k["n"]), k["h"].dbl(), mb[(int)k["b2"].num()], vec(k["st"])));
                 else if (t == "cang") cons.push_back(Constraint::ConstantAngle(b1, axisOf(k["a1"]), mb[(int)k["b2"].num()], axisOf(k["a2"]), std::acos(k["cosn"].dbl() / std::pow(5.0, k["cose"].dbl()))));
-                else if (t == "cspeed") cons.push_back(Constraint::ConstantSpeed(b1, MobilizerUIndex((int)k["k"].num() - 1), k["s"].dbl()));
-                else if (t == "noslip") cons.push_back(Constraint::NoSlip1D(b1, vec(k["st"]), axisOf(k["n"]), mb[(int)k["b2"].num()], mb[(int)k["b3"].num()]));
-                else if (t == "ccoord") cons.push_back(Constraint::ConstantCoordinate(b1, MobilizerQIndex((int)k["k"].num() - 1), k["s"].dbl()));
-                else if (t == "cacc") cons.push_back(Constraint::ConstantAcceleration(b1, MobilizerUIndex((int)k["k"].num() - 1), k["s"].dbl()));
-                else if (t == "rod") cons.push_back(Constraint::Rod(b1, vec(k["st"]), mb[(int)k["b2"].num()], vec(k["st2"]), k["d"].dbl()));
+                else if (t == "cspeed") cons.push_back(Constraint::ConstantSpeed(b1, MobilizerUIndex((int)k["k"].num() - 1), k["s"].dbl() + (rt ? 3 : 0)));
+                else if (t == "noslip") cons.push_back(Constraint::NoSlip1D(b1, vec(k["st"]) + (rt ? Vec3(1, 2, -1) : Vec3(0)), rt ? UnitVec3(Vec3(1, 2, 2)) : axisOf(k["n"]), mb[(int)k["b2"].num()], mb[(int)k["b3"].num()]));
+                else if (t == "ccoord") cons.push_back(Constraint::ConstantCoordinate(b1, MobilizerQIndex((int)k["k"].num() - 1), k["s"].dbl() + (rt ? -2 : 0)));
+                else if (t == "cacc") cons.push_back(Constraint::ConstantAcceleration(b1, MobilizerUIndex((int)k["k"].num() - 1), k["s"].dbl() + (rt ? 5 : 0)));
+                else if (t == "rod") cons.push_back(Constraint::Rod(b1, vec(k["st"]) + (rt ? Vec3(1, 1, -2) : Vec3(0)), mb[(int)k["b2"].num()], vec(k["st2"]) + (rt ? Vec3(2, -1, 1) : Vec3(0)), k["d"].dbl() + (rt ? 2 : 0)));
                 else throw std::runtime_error("unknown constraint type " + t);
                 cons.back().setDisabledByDefault(true);
             }
@@ -447,7 +448,19 @@ int main(int argc, char** argv) {
                 auto ownerOf = [&](size_t k) { const mj::Value& e = c["cons"][(int)k]; return e.has("grp") ? k - (size_t)e["part"].num() : k; };
                 auto eqOf = [&](size_t k) { const mj::Value& e = c["cons"][(int)k]; return e.has("grp") ? (int)e["part"].num() : 0; };
                 for (size_t k = 0; k < cons.size(); ++k) if (c["cons"][(int)k]["on"].num() && ownerOf(k) == k) { cons[k].enable(sc); ++nen; }
-                system.realizeModel(sc); setCoords(sc, c["q"], c["u"]);
+                system.realizeModel(sc);
+                for (size_t k = 0; k < cons.size(); ++k) {       // parameters given at run time, in the State
+                    const mj::Value& e = c["cons"][(int)k];
+                    if (!(e.has("rt") && e["rt"].num()) || !e["on"].num() || ownerOf(k) != k) continue;
+                    const string t = e["type"].str();
+                    if (e.has("grp") && t == "ballc") { const Constraint::Ball& b = Constraint::Ball::downcast(cons[k]); b.setPointOnBody1(sc, vec(e["st"])); b.setPointOnBody2(sc, vec(e["st2"])); }
+                    else if (t == "rod") { const Constraint::Rod& r = Constraint::Rod::downcast(cons[k]); r.setPointOnBody1(sc, vec(e["st"])); r.setPointOnBody2(sc, vec(e["st2"])); r.setRodLength(sc, e["d"].dbl()); }
+                    else if (t == "cspeed") Constraint::ConstantSpeed::downcast(cons[k]).setSpeed(sc, e["s"].dbl());
+                    else if (t == "ccoord") Constraint::ConstantCoordinate::downcast(cons[k]).setPosition(sc, e["s"].dbl());
+                    else if (t == "cacc") Constraint::ConstantAcceleration::downcast(cons[k]).setAcceleration(sc, e["s"].dbl());
+                    else if (t == "noslip") { const Constraint::NoSlip1D& n = Constraint::NoSlip1D::downcast(cons[k]); n.setContactPoint(sc, vec(e["st"])); n.setDirection(sc, axisOf(e["n"])); }
+                }
+                setCoords(sc, c["q"], c["u"]);
                 system.realize(sc, Stage::Velocity);
                 js << ",\"cons\":[";
                 for (size_t k = 0; k < cons.size(); ++k) {
